@@ -50,6 +50,9 @@ pub struct Scenario {
     pub oracle: OracleCfg,
     #[serde(default)]
     pub expect: Option<Expect>,
+    /// Engine *rx* (C10, C16): when present the world is not used.
+    #[serde(default)]
+    pub rx: Option<crate::rx::RxCfg>,
 }
 
 #[derive(Serialize, Deserialize, Clone, Debug, Default)]
